@@ -1,17 +1,22 @@
-/-! Feasibility prototype (scratch, not part of /verif): slack coefficients
-    `[1,2,..,2^(k-1)] ++ [S - 2^k + 1]`, `k = Nat.log2 S`, represent exactly `0..S`. -/
+import DimodModel.Penalty
+
+/-! # Slack encodings of `add_linear_inequality_constraint` / `binary_encoding` (core Lean only)
+
+* `slack_covers`: the subset sums of `[1, 2, …, 2^(k-1), S − 2^k + 1]`, `k = Nat.log2 S`, are exactly `0..S`;
+* `slack_linear_covers`: the one-hot list `1..S` (or nothing) gives exactly `0..S`;
+* `slack_log10_covers`: the digit lists of the `log10` method reach every value `0..S` (the converse is
+  false — `slack_log10_overshoots`: for `S = 15` the value 19 is reachable, D17);
+* `ineqPlan_sound`: the bound tightening and the four outcomes of the planning step. -/
+
+open Pen
 
 /-- dot product of a 0/1 choice vector with coefficients -/
 def dot : List Bool → List Nat → Nat
   | b :: bs, c :: cs => (if b then c else 0) + dot bs cs
   | _, _ => 0
 
+/-- `t` is a subset sum of the coefficient list -/
 def Reps (cs : List Nat) (t : Nat) : Prop := ∃ bs : List Bool, bs.length = cs.length ∧ dot bs cs = t
-
-/-- powers of two `2^0 .. 2^(k-1)` -/
-def pows : Nat → List Nat
-  | 0 => []
-  | k+1 => pows k ++ [2^k]
 
 theorem dot_append (b1 b2 : List Bool) (c1 c2 : List Nat) (h : b1.length = c1.length) :
     dot (b1 ++ b2) (c1 ++ c2) = dot b1 c1 + dot b2 c2 := by
@@ -61,30 +66,175 @@ theorem pows_repr (k t : Nat) (h : t < 2^k) : Reps (pows k) t := by
       rw [pows, dot_append _ _ _ _ hl, hd]; simp [dot]; omega
 
 /-- the coefficient list built by `add_linear_inequality_constraint` / `binary_encoding` -/
-def slackCoeffs (S : Nat) : List Nat := pows (Nat.log2 S) ++ [S - 2^(Nat.log2 S) + 1]
+abbrev slackCoeffs (S : Nat) : List Nat := slackLog2 S
 
 theorem log2_spec (S : Nat) (h : S ≠ 0) : 2^(Nat.log2 S) ≤ S ∧ S < 2^(Nat.log2 S + 1) :=
   ⟨Nat.log2_self_le h, Nat.lt_log2_self⟩
 
 /-- C16 `slack_log2_covers`: exactly the integers `0..S`. -/
-theorem slack_covers (S : Nat) (hS : 1 ≤ S) (t : Nat) : Reps (slackCoeffs S) t ↔ t ≤ S := by
+theorem slack_covers (S : Nat) (hS : 1 ≤ S) (t : Nat) : Reps (slackLog2 S) t ↔ t ≤ S := by
   have ⟨hlo, hhi⟩ := log2_spec S (by omega)
   have hsum := pows_sum (Nat.log2 S)
   constructor
   · rintro ⟨bs, _, rfl⟩
-    have := dot_le_sum bs (slackCoeffs S)
-    simp only [slackCoeffs, List.sum_append, List.sum_cons, List.sum_nil] at this ⊢
+    have := dot_le_sum bs (slackLog2 S)
+    simp only [slackLog2, List.sum_append, List.sum_cons, List.sum_nil] at this ⊢
     omega
   · intro ht
     rw [Nat.pow_succ] at hhi
     by_cases hlt : t < 2^(Nat.log2 S)
     · obtain ⟨bs, hl, hd⟩ := pows_repr _ t hlt
-      refine ⟨bs ++ [false], by simp [slackCoeffs, hl], ?_⟩
-      rw [slackCoeffs, dot_append _ _ _ _ hl, hd]; simp [dot]
+      refine ⟨bs ++ [false], by simp [slackLog2, hl], ?_⟩
+      rw [slackLog2, dot_append _ _ _ _ hl, hd]; simp [dot]
     · have : t - (S - 2^(Nat.log2 S) + 1) < 2^(Nat.log2 S) := by omega
       obtain ⟨bs, hl, hd⟩ := pows_repr _ _ this
-      refine ⟨bs ++ [true], by simp [slackCoeffs, hl], ?_⟩
-      rw [slackCoeffs, dot_append _ _ _ _ hl, hd]; simp [dot]; omega
+      refine ⟨bs ++ [true], by simp [slackLog2, hl], ?_⟩
+      rw [slackLog2, dot_append _ _ _ _ hl, hd]; simp [dot]; omega
 
-#print axioms slack_covers
-example : Reps (slackCoeffs 6) 5 := (slack_covers 6 (by decide) 5).2 (by decide)
+example : Reps (slackLog2 6) 5 := (slack_covers 6 (by decide) 5).2 (by decide)
+
+/-! ## linear method: one slack variable whose case `i` (1 ≤ i ≤ S) is worth `i`, case 0 worth nothing -/
+
+theorem mem_slackLinear (S t : Nat) : t ∈ slackLinear S ↔ 1 ≤ t ∧ t ≤ S := by
+  simp only [slackLinear, List.mem_map, List.mem_range]
+  constructor
+  · rintro ⟨a, ha, rfl⟩; omega
+  · intro h; exact ⟨t - 1, by omega, by omega⟩
+
+/-- C16 `slack_linear_covers`: the value of the one-hot slack variable ranges over exactly `0..S` -/
+theorem slack_linear_covers (S t : Nat) : (t = 0 ∨ t ∈ slackLinear S) ↔ t ≤ S := by
+  rw [mem_slackLinear]; omega
+
+/-! ## the planning step -/
+
+/-- `Σ aᵢ·[bᵢ]` for a 0/1 assignment of the positions -/
+def idot : List Bool → List Int → Int
+  | b :: bs, c :: cs => (if b then c else 0) + idot bs cs
+  | _, _ => 0
+
+/-- for 0/1 variables the linear form lies between the sum of its negative and of its positive coefficients -/
+theorem idot_bounds (bs : List Bool) (cs : List Int) : sumNeg cs ≤ idot bs cs ∧ idot bs cs ≤ sumPos cs := by
+  induction cs generalizing bs with
+  | nil => cases bs <;> simp [idot, sumNeg, sumPos]
+  | cons c cs ih =>
+    cases bs with
+    | nil =>
+      have := ih []
+      simp only [idot, sumNeg, sumPos] at this ⊢
+      constructor <;> split <;> omega
+    | cons b bs =>
+      have := ih bs
+      simp only [idot, sumNeg, sumPos]
+      constructor <;> split <;> split <;> omega
+
+/-- what each outcome of the planning step means for a value `T` of the linear form inside its
+    term bounds (`T` = `Σ aᵢxᵢ` at any 0/1 sample, by `idot_bounds`) -/
+theorem ineqPlan_sound (coeffs : List Int) (c lb ub T : Int) (hlo : sumNeg coeffs ≤ T) (hhi : T ≤ sumPos coeffs) :
+    match ineqPlan coeffs c lb ub with
+    | .skip => lb ≤ T + c ∧ T + c ≤ ub
+    | .infeasible => ¬ (lb ≤ T + c ∧ T + c ≤ ub)
+    | .equality ubc => (lb ≤ T + c ∧ T + c ≤ ub) ↔ T - ubc = 0
+    | .slack ubc _ S => 1 ≤ S ∧ ((lb ≤ T + c ∧ T + c ≤ ub) ↔ ∃ t : Nat, t ≤ S ∧ T + t - ubc = 0) := by
+  simp only [ineqPlan]
+  generalize hu : min (sumPos coeffs) (ub - c) = ubc
+  generalize hl : max (sumNeg coeffs) (lb - c) = lbc
+  have hu1 : ubc ≤ sumPos coeffs ∧ ubc ≤ ub - c ∧ (ubc = sumPos coeffs ∨ ubc = ub - c) := by omega
+  have hl1 : sumNeg coeffs ≤ lbc ∧ lb - c ≤ lbc ∧ (lbc = sumNeg coeffs ∨ lbc = lb - c) := by omega
+  by_cases h1 : sumPos coeffs ≤ ubc ∧ sumNeg coeffs ≥ lbc
+  · rw [if_pos h1]; simp only; omega
+  · rw [if_neg h1]
+    by_cases h2 : ubc < lbc
+    · rw [if_pos h2]; simp only; omega
+    · rw [if_neg h2]
+      by_cases h3 : (ubc - lbc).toNat = 0
+      · rw [if_pos h3]; simp only; omega
+      · rw [if_neg h3]
+        simp only
+        refine ⟨by omega, ?_⟩
+        constructor
+        · intro hf
+          exact ⟨(ubc - T).toNat, by omega, by omega⟩
+        · rintro ⟨t, ht, heq⟩
+          omega
+
+/-- a nonzero integer has square at least one: the gap of the penalty -/
+theorem one_le_sq (k : Int) (h : k ≠ 0) : 1 ≤ k * k := by
+  rcases Int.lt_or_gt_of_ne h with h | h
+  · have := Int.mul_pos_of_neg_of_neg h h; omega
+  · have := Int.mul_pos h h; omega
+
+/-! ## log10 method: one slack variable per decimal digit -/
+
+/-- values of a family of one-hot slack variables: each contributes 0 or one entry of its list -/
+def RepsOH : List (List Nat) → Nat → Prop
+  | [], t => t = 0
+  | d :: ds, t => ∃ a, (a = 0 ∨ a ∈ d) ∧ ∃ r, RepsOH ds r ∧ t = a + r
+
+theorem mem_rangeStepTail (stop step i : Nat) : i ∈ rangeStepTail stop step ↔ i < stop ∧ i % step = 0 ∧ i ≠ 0 := by
+  simp [rangeStepTail, List.mem_filter, List.mem_range]
+
+theorem clog10_go_spec (S : Nat) (fuel k p : Nat) (hp : p = 10 ^ k) (hf : S + 1 ≤ fuel + p) :
+    S + 1 ≤ 10 ^ (clog10.go S fuel k p) := by
+  induction fuel generalizing k p with
+  | zero => simp only [clog10.go]; omega
+  | succ f ih =>
+    simp only [clog10.go]
+    split
+    · omega
+    · apply ih (k + 1) (p * 10)
+      · rw [hp, Nat.pow_succ]
+      · have : 1 ≤ p := by rw [hp]; exact Nat.pow_pos (by omega)
+        omega
+
+/-- `clog10 S` decimal digits suffice for `S` (the code's `ceil(log10(S + 1))`; float vs exact is a test) -/
+theorem clog10_spec (S : Nat) : S + 1 ≤ 10 ^ clog10 S := by
+  unfold clog10
+  exact clog10_go_spec S (S + 1) 0 1 rfl (by omega)
+
+/-- the digit lists for positions `j, j+1, …, j+len-1` -/
+def digs (S : Nat) (j len : Nat) : List (List Nat) :=
+  (List.range' j len).map (fun i => rangeStepTail (min (S + 1) (10 ^ (i + 1))) (10 ^ i))
+
+theorem slackLog10_eq_digs (S : Nat) : slackLog10 S = digs S 0 (clog10 S) := by
+  simp [slackLog10, digs, List.range_eq_range']
+
+theorem digs_reps (S len j t : Nat) (hdiv : t % 10 ^ j = 0) (hlt : t < 10 ^ (j + len)) (hS : t ≤ S) :
+    RepsOH (digs S j len) t := by
+  induction len generalizing j t with
+  | zero =>
+    simp only [digs, List.range'_zero, List.map_nil, RepsOH]
+    have : t < 10 ^ j := by simpa using hlt
+    have hd := Nat.div_add_mod t (10 ^ j)
+    have : t / 10 ^ j = 0 := Nat.div_eq_of_lt this
+    rw [this, hdiv] at hd; simp at hd; omega
+  | succ len ih =>
+    have hm : 0 < 10 ^ (j + 1) := Nat.pow_pos (by omega)
+    have hdm := Nat.div_add_mod t (10 ^ (j + 1))
+    have hmodlt := Nat.mod_lt t hm
+    simp only [digs, List.range'_succ, List.map_cons, RepsOH]
+    refine ⟨t % 10 ^ (j + 1), ?_, t - t % 10 ^ (j + 1), ?_, by omega⟩
+    · by_cases h0 : t % 10 ^ (j + 1) = 0
+      · exact Or.inl h0
+      · right
+        rw [mem_rangeStepTail]
+        refine ⟨by omega, ?_, h0⟩
+        rw [Nat.mod_mod_of_dvd _ (Nat.pow_dvd_pow 10 (Nat.le_succ j))]
+        exact hdiv
+    · have hr : t - t % 10 ^ (j + 1) = 10 ^ (j + 1) * (t / 10 ^ (j + 1)) := by omega
+      apply ih (j + 1) _
+      · rw [hr]; exact Nat.mul_mod_right _ _
+      · have : j + 1 + len = j + (len + 1) := by omega
+        rw [this]; omega
+      · omega
+
+/-- C16 `slack_log10_covers_partial`: every value `0..S` is reachable with the log10 digit variables.
+    The converse fails (`slack_log10_overshoots`), which is defect D17. -/
+theorem slack_log10_covers (S t : Nat) (h : t ≤ S) : RepsOH (slackLog10 S) t := by
+  rw [slackLog10_eq_digs]
+  apply digs_reps S (clog10 S) 0 t (by simp [Nat.mod_one]) _ h
+  have := clog10_spec S
+  simp only [Nat.zero_add]; omega
+
+/-- D17 witness: for `S = 15` the digit variables `[1..9]` and `[10]` reach 19 > S -/
+theorem slack_log10_overshoots : RepsOH (slackLog10 15) 19 ∧ ¬ (19 ≤ 15) := by
+  refine ⟨⟨9, Or.inr (by decide), 10, ⟨10, Or.inr (by decide), 0, rfl, rfl⟩, rfl⟩, by decide⟩
